@@ -24,3 +24,36 @@ package message
 //@   lenient
 //@   modifies alloc
 //@   ensures result.id == id && result.requestType == graphsync.RequestTypeUpdate
+
+//@ -- ============================ C15: block bytes accounted by a message builder ============================
+//@ func Builder.BlockSize
+//@   modifies nothing
+//@   ensures result == b.blkSize
+//@ -- every added block adds exactly its length (also when the same CID is added again: it was reserved again)
+//@ func Builder.AddBlock
+//@   requires b.outgoingBlocks != nil && block != nil
+//@   modifies b.blkSize, b.outgoingBlocks[*]
+//@   ensures b.blkSize == old(b.blkSize) + blockLen(block)
+//@ func Builder.AddLink
+//@   lenient
+//@   safety off
+//@   modifies b.outgoingResponses[*], alloc
+//@ func Builder.AddResponseCode
+//@   safety off
+//@   modifies b.completedResponses[*], b.outgoingResponses[*]
+//@ func Builder.AddExtensionData
+//@   safety off
+//@   modifies b.extensions[*], b.outgoingResponses[*]
+//@ -- scrubbing returns exactly the bytes that left the builder (assumed: the nested re-count of the blocks still
+//@ -- referenced is not under contract; it needs blkSize >= bytes of the distinct blocks, not proved here)
+//@ func Builder.ScrubResponses
+//@   assumed
+//@   modifies b.blkSize, b.outgoingBlocks, b.completedResponses[*], b.extensions[*], b.outgoingResponses[*], alloc
+//@   ensures b.blkSize <= old(b.blkSize) && result == old(b.blkSize) - b.blkSize
+//@ func Builder.Empty
+//@   safety off
+//@   modifies nothing
+//@ func NewBuilder
+//@   modifies alloc
+//@   ensures result != nil && fresh(result) && result.blkSize == 0 && result.outgoingBlocks != nil && result.requests != nil
+//@   ensures result.completedResponses != nil && result.outgoingResponses != nil && result.extensions != nil
